@@ -825,6 +825,9 @@ func (r *reader) read(src []byte) {
 			r.pushChar(src)
 		case intMode:
 			r.pushInteger(src)
+		case bitVectorMode:
+			// A bit-vector at the very end of the text.
+			r.push(ReadBitVector(r.makeToken(src)))
 		case sharpMode, sharpNumMode, mustArrayMode:
 			r.partial("# macro not terminated")
 		case blockCommentMode, blockEndMode:
